@@ -20,6 +20,8 @@ struct Block { void *p; size_t size; int owner; uint64_t seq; };
 struct Monitor {
     // callbacks
     int64_t illegal_count = 0;
+    int64_t illegal_by_task[40] = {0};   // per running task (index cur_task + 1): callbacks are attributed to the caller thread that provoked them
+    int64_t illegal_here() const { return illegal_by_task[(cur_task + 1) >= 0 && (cur_task + 1) < 40 ? cur_task + 1 : 0]; }
     int64_t error_count = 0;
     std::string last_illegal, last_error;
     // allocator
